@@ -1,9 +1,10 @@
 (* Extraction of the byte-core model for the correspondence check (ExtrOcamlBasic only). *)
-From Verif Require Import Bytes Base64 LineBreaker QP HeaderFold.
+From Verif Require Import Bytes Base64 LineBreaker QP HeaderFold WordEnc Writer.
 Require Extraction.
 Require Import ExtrOcamlBasic.
 Extraction "model.ml"
   Base64.b64enc Base64.b64dec LineBreaker.lb_run LineBreaker.b64_body LineBreaker.wrap
   QP.qp_run QP.qp_body QP.qp_decode
   HeaderFold.write_header HeaderFold.unfold_hdr
-  Bytes.lines_ok.
+  Bytes.lines_ok
+  WordEnc.word_encode Writer.write_to Writer.unlimited Writer.fail_at Writer.enc_of_name Writer.sanitize Writer.file_headers.
